@@ -65,6 +65,7 @@ type Contract struct {
 	Props    []string
 	Flags    map[string]bool
 	Refines  []string
+	Parent   *Contract // callee contracts: the contract of the enclosing function
 	File     string
 	Line     int
 }
@@ -76,11 +77,22 @@ type PureFunc struct {
 	Decl    *ast.FuncDecl // after load
 	Rec     bool          // declared `rec`: uninterpreted + unfolding axiom
 	Opaque  bool
+	Abstract bool         // uninterpreted spec function
+	RecvType string       // method definitions: receiver type text
+	Method  string
 	File    string
 	Line    int
 }
 
+type Axiom struct {
+	Name    string
+	PkgPath string
+	Clause  *Clause
+}
+
 type PkgContracts struct {
+	Axioms    []*Axiom
+	GlobalInvs []*Contract
 	PkgPath   string
 	Dir       string
 	PkgName   string
@@ -93,7 +105,7 @@ type PkgContracts struct {
 	clauseSeq int
 }
 
-var kwRe = regexp.MustCompile(`^(import|pure|rec|opaque|func|assume|interface|functype|captures|requires|ensures|assigns|decreases|loop|invariant|lemma|props|ghost|let|flag|refines|var)\b`)
+var kwRe = regexp.MustCompile(`^(import|pure|rec|opaque|abstract|method|callee|func|assume|interface|functype|captures|axiom|globalinv|requires|ensures|assigns|decreases|loop|invariant|lemma|props|ghost|let|flag|refines|var)\b`)
 
 func parseContractFile(path, pkgPath string) (*PkgContracts, error) {
 	b, err := os.ReadFile(path)
@@ -204,6 +216,54 @@ func parseContractFile(path, pkgPath string) (*PkgContracts, error) {
 			pc.Synth += fmt.Sprintf("//line %s:%d\n%s { return %s }\n", path, l.line, head, rewriteSpec(body))
 			pc.Pures = append(pc.Pures, pf)
 			cur, curLoop = nil, nil
+		case "abstract":
+			// abstract func name(params) T   -- an uninterpreted spec function
+			head := strings.TrimSpace(rest)
+			nm := regexp.MustCompile(`^func\s+([A-Za-z_][A-Za-z_0-9]*)`).FindStringSubmatch(head)
+			if nm == nil {
+				return nil, fmt.Errorf("%s:%d: bad abstract func", path, l.line)
+			}
+			pf := &PureFunc{PkgPath: pkgPath, File: path, Line: l.line, Name: nm[1], FnName: nm[1], Abstract: true}
+			pc.Synth += fmt.Sprintf("//line %s:%d\n%s { panic(0) }\n", path, l.line, head)
+			pc.Pures = append(pc.Pures, pf)
+			cur, curLoop = nil, nil
+		case "method":
+			// method (e T) Name(params) (r R) = expr : value of a pure method for a concrete receiver type;
+			// the real method is verified to return exactly this and to assign nothing
+			eqi := indexTopLevel(rest, " = ")
+			if eqi < 0 {
+				return nil, fmt.Errorf("%s:%d: method needs ` = expr`", path, l.line)
+			}
+			head, body := strings.TrimSpace(rest[:eqi]), strings.TrimSpace(rest[eqi+3:])
+			c := &Contract{Kind: "func", PkgPath: pkgPath, PkgDir: pc.Dir, Loops: map[int]*LoopContract{}, Flags: map[string]bool{"pure": true}, File: path, Line: l.line, Props: defProps}
+			if err := parseHeader(c, head); err != nil {
+				return nil, fmt.Errorf("%s:%d: %v", path, l.line, err)
+			}
+			if c.Recv == nil || len(c.Results) != 1 {
+				return nil, fmt.Errorf("%s:%d: method definition needs a receiver and one result", path, l.line)
+			}
+			c.Ensures = append(c.Ensures, &Clause{Kind: "ensures", Label: "def", Text: c.Results[0].Name + " == " + body, File: path, Line: l.line, Owner: c})
+			c.Assigns = append(c.Assigns, &Clause{Kind: "assigns", Text: "nothing", File: path, Line: l.line, Owner: c})
+			pc.Contracts = append(pc.Contracts, c)
+			fn := "zzm_" + sanitize(c.Recv.Type) + "_" + c.Name
+			pf := &PureFunc{PkgPath: pkgPath, File: path, Line: l.line, Name: fn, FnName: fn, RecvType: c.Recv.Type, Method: c.Name}
+			params := binderList(append([]Binder{*c.Recv}, c.Params...))
+			pc.Synth += fmt.Sprintf("//line %s:%d\nfunc %s(%s) %s { return %s }\n", path, l.line, fn, params, c.Results[0].Type, rewriteSpec(body))
+			pc.Pures = append(pc.Pures, pf)
+			cur, curLoop = c, nil
+		case "callee":
+			// callee f(params) (results): contract of a function-typed parameter of the current contract
+			if cur == nil {
+				return nil, fmt.Errorf("%s:%d: callee outside a contract", path, l.line)
+			}
+			c := &Contract{Kind: "functype", PkgPath: pkgPath, PkgDir: pc.Dir, Loops: map[int]*LoopContract{}, Flags: map[string]bool{}, File: path, Line: l.line, Props: cur.Props}
+			if err := parseHeader(c, rest); err != nil {
+				return nil, fmt.Errorf("%s:%d: %v", path, l.line, err)
+			}
+			c.Target = cur.Target + "#" + c.Name
+			c.Parent = cur
+			pc.Contracts = append(pc.Contracts, c)
+			cur, curLoop = c, nil
 		case "func", "assume", "interface", "functype", "lemma":
 			c := &Contract{Kind: kw, PkgPath: pkgPath, PkgDir: pc.Dir, Loops: map[int]*LoopContract{}, Flags: map[string]bool{}, File: path, Line: l.line, Props: defProps}
 			r := rest
@@ -215,6 +275,30 @@ func parseContractFile(path, pkgPath string) (*PkgContracts, error) {
 			}
 			pc.Contracts = append(pc.Contracts, c)
 			cur, curLoop = c, nil
+		case "axiom":
+			ax := &Contract{Kind: "axiom", PkgPath: pkgPath, PkgDir: pc.Dir, Loops: map[int]*LoopContract{}, Flags: map[string]bool{}, File: path, Line: l.line}
+			save := cur
+			cur = ax
+			cl := mkClause("requires")
+			cur = save
+			cl.Owner = ax
+			ax.Requires = append(ax.Requires, cl)
+			ax.Name = cl.Label
+			ax.Target = pkgPath + ".axiom." + cl.Label
+			pc.Contracts = append(pc.Contracts, ax)
+			pc.Axioms = append(pc.Axioms, &Axiom{Name: cl.Label, PkgPath: pkgPath, Clause: cl})
+		case "globalinv":
+			gi := &Contract{Kind: "globalinv", PkgPath: pkgPath, PkgDir: pc.Dir, Loops: map[int]*LoopContract{}, Flags: map[string]bool{}, File: path, Line: l.line, Props: defProps}
+			save := cur
+			cur = gi
+			cl := mkClause("requires")
+			cur = save
+			cl.Owner = gi
+			gi.Requires = append(gi.Requires, cl)
+			gi.Name = cl.Label
+			gi.Target = pkgPath + ".globalinv." + cl.Label
+			pc.Contracts = append(pc.Contracts, gi)
+			pc.GlobalInvs = append(pc.GlobalInvs, gi)
 		case "captures":
 			bs, err := parseBinders(rest)
 			if err != nil {
@@ -426,12 +510,51 @@ func indexTopLevel(s, sep string) int {
 
 var quantRe = regexp.MustCompile(`^(forall|exists)\s+`)
 
+// indexTopLevelQuant: position of the first top-level quantifier keyword
+func indexTopLevelQuant(s string) int {
+	depth := 0
+	inStr := byte(0)
+	for i := 0; i < len(s); i++ {
+		c := s[i]
+		if inStr != 0 {
+			if c == '\\' {
+				i++
+			} else if c == inStr {
+				inStr = 0
+			}
+			continue
+		}
+		switch c {
+		case '"', '\'', '`':
+			inStr = c
+		case '(', '[', '{':
+			depth++
+		case ')', ']', '}':
+			depth--
+		default:
+			if depth == 0 && (c == 'f' || c == 'e') && quantRe.MatchString(s[i:]) {
+				if i == 0 || !(isIdentChar(s[i-1])) {
+					return i
+				}
+			}
+		}
+	}
+	return -1
+}
+
+func isIdentChar(c byte) bool {
+	return c == '_' || c >= '0' && c <= '9' || c >= 'a' && c <= 'z' || c >= 'A' && c <= 'Z'
+}
+
 func rewriteSpec(s string) string {
 	s = strings.TrimSpace(s)
 	if s == "" {
 		return s
 	}
-	if m := quantRe.FindString(s); m != "" {
+	q := indexTopLevelQuant(s)
+	imp := indexTopLevel(s, "==>")
+	if q == 0 {
+		m := quantRe.FindString(s)
 		if dc := indexTopLevel(s, "::"); dc > 0 {
 			kw := strings.TrimSpace(m)
 			binders := strings.TrimSpace(s[len(m):dc])
@@ -439,25 +562,12 @@ func rewriteSpec(s string) string {
 			return fmt.Sprintf("%s(func(%s) bool { return %s })", kw, binders, rewriteSpec(body))
 		}
 	}
-	if i := indexTopLevel(s, "==>"); i >= 0 {
-		return "implies(" + rewriteSpec(s[:i]) + ", " + rewriteSpec(s[i+3:]) + ")"
+	if q > 0 && (imp < 0 || q < imp) {
+		// a quantifier extends as far to the right as possible
+		return rewriteInside(s[:q]) + " " + rewriteSpec(s[q:])
 	}
-	// a quantifier that is not at the start but at top level after && or ||
-	for _, op := range []string{"&&", "||"} {
-		// find last top-level operator followed by quantifier
-		pos := 0
-		for {
-			j := indexTopLevel(s[pos:], op)
-			if j < 0 {
-				break
-			}
-			j += pos
-			restS := strings.TrimSpace(s[j+2:])
-			if quantRe.MatchString(restS) {
-				return rewriteInside(s[:j]) + " " + op + " " + rewriteSpec(restS)
-			}
-			pos = j + 2
-		}
+	if imp >= 0 {
+		return "implies(" + rewriteSpec(s[:imp]) + ", " + rewriteSpec(s[imp+3:]) + ")"
 	}
 	return rewriteInside(s)
 }
@@ -590,13 +700,20 @@ func same(a, b interface{}) bool { return true }
 func unchanged(l ...interface{}) bool { return true }
 func call(f interface{}, args ...interface{}) interface{} { return nil }
 func visited(k interface{}) bool { return true }
+func pointee(x interface{}) interface{} { return nil }
 func itercount() int { return 0 }
 type rangeindex = int
-var _ = []interface{}{forall, exists, implies, fresh, cells, mapcells, locs, nothing, dyntype, allocated, tuple, strof, same, unchanged, call, visited}
+var _ = []interface{}{forall, exists, implies, fresh, cells, mapcells, locs, nothing, dyntype, allocated, tuple, strof, same, unchanged, call, visited, pointee}
 `
 
 func (c *Contract) allBinders() []Binder {
 	var bs []Binder
+	if c.Parent != nil {
+		if c.Parent.Recv != nil {
+			bs = append(bs, *c.Parent.Recv)
+		}
+		bs = append(bs, c.Parent.Params...)
+	}
 	if c.Recv != nil {
 		bs = append(bs, *c.Recv)
 	}
